@@ -122,6 +122,23 @@ func checkC16(c *Ctx) {
 	// the transcript absorbs |v| (FillBytes) and (-v)^C = v^C for an even challenge: a statement element
 	// replaced by its negative must be refused before the algebra
 	c.guard(p, "C16.verifyguard", "a negative statement element is refused", qv, GuardSpec{Assumes: []Assume{calleeAssume(latInt(-1), -1, "(*math/big.Int).Sign")}})
+	for _, t := range []string{"VerifiableClient", "PartialObliviousClient"} {
+		c.rejectReasonsRule(p, "C16.verifyguard", reasonSpec{pkg: "oprf", typ: t, name: "Finalize", why: "RFC 9497: shape of the evaluation, the DLEQ proof",
+			callees: []string{"(oprf.client).validate", "(zk/dleq.Verifier).VerifyBatch", "(oprf.client).pointFromInfo", "(oprf.PartialObliviousClient).pointFromInfo"}})
+	}
+	// the response is computed over the integers from the witness itself: exponents of squares modulo N live
+	// modulo the (secret) group order, so a witness "reduced" modulo N proves a different statement
+	if qp := p.Func("zk/qndleq", "", "Prove"); qp != nil {
+		if i := paramIdx(qp, "x"); i >= 0 {
+			c.callArgRule(p, "C16.dep", "the response z = c·x + r uses the witness as given", qp, "(*math/big.Int).Mul", "", map[int]string{2: sprintf(`param#%d`, i)})
+		} else {
+			c.undecided("C16.dep", fname(qp)+": the response uses the witness as given", "parameter x does not exist", p.fnPos(qp))
+		}
+	} else {
+		c.undecided("C16.dep", "zk/qndleq.Prove: the response uses the witness as given", "anchor does not resolve", "")
+	}
+	c.rejectReasonsRule(p, "C16.verifyguard", reasonSpec{pkg: "zk/qndleq", typ: "Proof", name: "Verify", why: "range of the statement elements, invertibility, challenge comparison",
+		callees: []string{"(*math/big.Int).Cmp", "(*math/big.Int).ModInverse", "(*math/big.Int).Sign"}})
 	c.guard(p, "C16.verifyguard", "QN-DLEQ accepted only if the recomputed challenge equals C", qv, GuardSpec{Assumes: []Assume{calleeAssume(latInt(1), -1, "(*math/big.Int).Cmp")}})
 
 	// ---- dependence ----
